@@ -47,7 +47,8 @@ def rand_selection(rng):
 # Angstrom / Ohm signs, conjoining jamo, compatibility ideograph), case-sensitive, leading/trailing/inner whitespace,
 # control characters, characters JSON must escape, non-BMP
 ODD_TEXT = ["Cafe\u0301", "\u212b\u2126", "\u1112\u1161\u11ab", "\uf900", "  padded  ", "Tab\tNew\nLine", "quote\"back\\slash/",
-            "\U0001f600 smile", "MiXeD CaSe", "\u0000nul", "\u200bzero-width", "\ufb01 ligature"]
+            "\U0001f600 smile", "MiXeD CaSe", "\u0000nul", "\u200bzero-width", "\ufb01 ligature",
+            "AT&T", "<script>alert(1)</script>", "a > b && c < d", "&amp; already escaped", "100%", "C:\\path", "${name}", "{0}", "%s"]
 
 
 def rand_reg_args(rng):
